@@ -301,6 +301,74 @@ def sinks_of(fi: FuncInfo) -> List[Sink]:
                 src = provenance(core, fn)
                 if src[0] in ('attr', 'loop', 'param'):
                     out.append(Sink(fi, cand, core, '', '', '', wr, src, enclosing_tests(fn, cand), norm(n)[:80], argi))
+    # when the templates of this function cannot be read as they stand (a piece that is a local bound in branches, a list joined with '', ...), read the
+    # returned text path by path instead
+    unreadable = any(s.quote == '?' for s in out)
+    returns_text = any(isinstance(r.value, ast.Call) and isinstance(r.value.func, ast.Attribute) and r.value.func.attr == 'join' and isinstance(r.value.func.value, ast.Constant)
+                       and r.value.func.value.value == '' for r in walk_no_nested(fn) if isinstance(r, ast.Return) and r.value is not None)
+    if unreadable or (returns_text and not any(s.quote for s in out)):
+        try:
+            ps = path_sinks(fi)
+        except RecursionError:        # pragma: no cover
+            ps = []
+        if ps and not any(s.quote == '?' for s in ps):
+            return ps
+    return out
+
+
+def path_sinks(fi: FuncInfo, consts: Optional[Dict[str, str]] = None) -> List[Sink]:
+    """Sinks read off the abstractly evaluated return text of every path (sa/strval.py): works whatever way the text is assembled - locals bound in
+    branches, lists joined with '', constants, conditional pieces - at the price of covering returned text only."""
+    from .strval import skeleton_paths, _MARK, HOLE, STAR
+    out: List[Sink] = []
+    fn = fi.node
+    if not isinstance(fn, ast.FunctionDef):
+        return out
+    seen: Dict[tuple, Sink] = {}
+    for lits, alt, tests, exprs in skeleton_paths(fn, unroll=1, consts=consts):
+        pos = 0
+        state = ''
+        prev_was_hole = False
+        marks = list(_MARK.finditer(alt))
+        for k, m in enumerate(marks):
+            left = alt[pos:m.start()]
+            state = quote_state(left, state)
+            nxt_start = marks[k + 1].start() if k + 1 < len(marks) else len(alt)
+            right = alt[m.end():nxt_start]
+            pos = m.end()
+            kind, label = m.group(1), m.group(2)
+            adjacent = prev_was_hole and left == ''
+            prev_was_hole = True
+            if kind not in (HOLE, STAR):
+                continue
+            e = exprs.get(label)
+            if e is None or isinstance(e, ast.Constant):
+                continue
+            for argi, pe in multi_args(e):
+                core, wr = strip_wrappers(pe)
+                if not isinstance(core, (ast.Attribute, ast.Name, ast.Subscript, ast.Call)):
+                    continue
+                q = state
+                if not state and adjacent:
+                    q = '?'
+                # one sink per (expression, context): the guards kept are those common to every path that writes it there
+                key = (id(e), q, argi, left[-1:])
+                if key in seen:
+                    sk = seen[key]
+                    sk.guards = [g for g in sk.guards if g in tests]
+                    # the context kept is what all paths agree on: common suffix to the left, common prefix to the right
+                    n_ = 0
+                    while n_ < min(len(sk.left), len(left)) and sk.left[len(sk.left) - 1 - n_] == left[len(left) - 1 - n_]:
+                        n_ += 1
+                    sk.left = sk.left[len(sk.left) - n_:]
+                    m_ = 0
+                    while m_ < min(len(sk.right), len(right)) and sk.right[m_] == right[m_]:
+                        m_ += 1
+                    sk.right = sk.right[:m_]
+                    continue
+                sk = Sink(fi, e, core, left, right, q, wr, provenance(core, fn), list(tests), norm(e)[:80], argi)
+                seen[key] = sk
+                out.append(sk)
     return out
 
 
@@ -566,15 +634,25 @@ class TemplateIndex:
         params = [x.arg for x in a.args]
         out: Dict[str, object] = {}
         bound = set()
+        def fold(v):
+            if isinstance(v, ast.Constant):
+                return True, v.value
+            if isinstance(v, ast.BinOp) and isinstance(v.op, ast.Add):
+                a, b = fold(v.left), fold(v.right)
+                if a[0] and b[0] and isinstance(a[1], str) and isinstance(b[1], str):
+                    return True, a[1] + b[1]
+            return False, None
         for p_, v in zip(params, call.args):
             bound.add(p_)
-            if isinstance(v, ast.Constant):
-                out[p_] = v.value
+            okc, cv = fold(v)
+            if okc:
+                out[p_] = cv
         for kw in call.keywords:
             if kw.arg:
                 bound.add(kw.arg)
-                if isinstance(kw.value, ast.Constant):
-                    out[kw.arg] = kw.value.value
+                okc, cv = fold(kw.value)
+                if okc:
+                    out[kw.arg] = cv
         for p_, d in zip(params[len(params) - len(a.defaults):], a.defaults):
             if p_ not in bound and isinstance(d, ast.Constant):
                 out[p_] = d.value
@@ -591,6 +669,13 @@ class TemplateIndex:
             if w.startswith('.'):
                 continue
             callee = self.resolve_func(s.fn, w)
+            if callee is not None and callee.id not in self.sinks and depth <= 4 and not s.quote and callee.module.startswith('pydbml.renderer') \
+                    and k == len(s.wrappers) - 1:
+                # the value is handed to a renderer helper whose text this engine could not read: the context is unknown, not "bare"
+                import copy as _copy
+                unknown = _copy.copy(s)
+                unknown.quote = '?'
+                return [(unknown, list(s.wrappers), list(s.guards), [s])]
             if callee is None or callee.id not in self.sinks or depth > 4:
                 continue
             params = [a.arg for a in callee.node.args.args]
@@ -601,6 +686,16 @@ class TemplateIndex:
             if inner:
                 # constant arguments at this call site decide the callee's tests on those parameters (`block=True`): infeasible callee contexts are dropped
                 consts = self._const_args(s, w, callee)
+                if consts and any(si.quote == '?' for si in inner):
+                    # the callee's text depends on pieces this call site passes as constants (an opening quote, a keyword): read it specialised to them
+                    sconsts = {k_: v_ for k_, v_ in consts.items() if isinstance(v_, str)}
+                    if sconsts:
+                        try:
+                            spec = [x for x in path_sinks(callee, sconsts) if x.source == ('param', params[pi])]
+                        except RecursionError:          # pragma: no cover
+                            spec = []
+                        if spec and not any(x.quote == '?' for x in spec):
+                            inner = spec
                 if consts:
                     inner = [si for si in inner if not any(g[0] in consts and bool(consts[g[0]]) != g[1] for g in si.guards)]
                 for si in inner:
